@@ -1175,6 +1175,25 @@ def run(ctx):
 						side.check_valid(entry, autosort, type_name, wire, expected, forms, answer)
 					for (category, wire, note), answer in zip(malformed, answers[len(valid):]):
 						side.check_malformed(entry, autosort, type_name, category, wire, note, answer)
+		if side.facts['embBase']:
+			# histories on ONE factory: the same type name requested through the two entry points in both orders (state kept by the
+			# factory between calls - caches, registered rules - must not leak from one creation into the next)
+			top_names = dict((friendly, type_name) for type_name, friendly in side.transaction_names(False))
+			embedded_names = dict((friendly, type_name) for type_name, friendly in side.transaction_names(True))
+			shared = sorted(set(top_names) & set(embedded_names))
+			for order in (('create_embedded', 'create'), ('create', 'create_embedded', 'create')):
+				side.facade = type(side.facade)(side.facade.network.name)
+				history = []
+				for friendly in shared:
+					for entry in order:
+						embedded = 'create_embedded' == entry
+						type_name = (embedded_names if embedded else top_names)[friendly]
+						wire, expected, forms = side.gen_valid(type_name, friendly, embedded, full=True)
+						history.append((entry, type_name, wire, expected, forms))
+				answers = ctx.driver.ask_many([side.request(entry, True, wire) for entry, _, wire, _, _ in history]) if ctx.driver else [None] * len(history)
+				for (entry, type_name, wire, expected, forms), answer in zip(history, answers):
+					ctx.count(f'history:{"-".join(part.replace("create_", "") for part in order)}')
+					side.check_valid(entry, True, type_name, wire, expected, forms, answer)
 		if not side.facts['embBase']:
 			# the nem factory has no create_embedded
 			if hasattr(side.facade.transaction_factory, 'create_embedded'):
